@@ -965,6 +965,80 @@ pub(crate) mod b {
         println!("BOUNDED-CASES {}", n);
     }
 
+    /// every stroke of a diagram of - | + (lines and rect outlines, through the real pipeline), cut into pieces of a
+    /// quarter unit so that merging and rect recognition do not matter; None when something is not axis-parallel
+    fn stroke_pieces(text: &str) -> Option<std::collections::BTreeSet<(i32, i32, i32, i32)>> {
+        let cb = CellBuffer::from(text);
+        let Endorse { accepted, rejects } = cb.endorse_to_fragment_spans();
+        let mut lines: Vec<(Point, Point)> = vec![];
+        for f in accepted.iter().chain(rejects.iter().flatten()) {
+            match &f.fragment {
+                Fragment::Line(l) => lines.push((l.start, l.end)),
+                Fragment::MarkerLine(m) => lines.push((m.line.start, m.line.end)),
+                Fragment::Rect(r) => {
+                    let (a, b) = (r.start, r.end);
+                    lines.push((Point::new(a.x, a.y), Point::new(b.x, a.y)));
+                    lines.push((Point::new(a.x, b.y), Point::new(b.x, b.y)));
+                    lines.push((Point::new(a.x, a.y), Point::new(a.x, b.y)));
+                    lines.push((Point::new(b.x, a.y), Point::new(b.x, b.y)));
+                }
+                Fragment::CellText(_) | Fragment::Text(_) => {}
+                _ => return None,
+            }
+        }
+        let mut out = std::collections::BTreeSet::new();
+        for (p, q) in lines {
+            let (x0, y0, x1, y1) = ((p.x * 4.0).round() as i32, (p.y * 4.0).round() as i32, (q.x * 4.0).round() as i32, (q.y * 4.0).round() as i32);
+            if y0 == y1 {
+                for x in x0.min(x1)..x0.max(x1) {
+                    out.insert((x, y0, x + 1, y0));
+                }
+            } else if x0 == x1 {
+                for y in y0.min(y1)..y0.max(y1) {
+                    out.insert((x0, y, x0, y + 1));
+                }
+            } else {
+                return None;
+            }
+        }
+        Some(out)
+    }
+
+    /// C03, last clause ("label characters never change the strokes"), through the real pipeline: blanking the
+    /// labels of a grid over {space, -, |, +, a, 7} leaves the set of stroked points as it is
+    #[test]
+    fn bounded_labels_do_not_change_strokes() {
+        let alphabet = [' ', '-', '|', '+', 'a', '7'];
+        let mut n = 0u64;
+        for (rows, cols) in [(1usize, 5usize), (2, 3), (3, 2)] {
+            let cells = rows * cols;
+            let total = (alphabet.len() as u64).pow(cells as u32);
+            for code in 0..total {
+                let mut k = code;
+                let mut grid = vec![vec![' '; cols]; rows];
+                let mut has_label = false;
+                for i in 0..cells {
+                    let ch = alphabet[(k % alphabet.len() as u64) as usize];
+                    k /= alphabet.len() as u64;
+                    grid[i / cols][i % cols] = ch;
+                    has_label |= ch == 'a' || ch == '7';
+                }
+                if !has_label {
+                    continue;
+                }
+                let with: String = grid.iter().map(|r| r.iter().collect::<String>()).collect::<Vec<_>>().join("\n");
+                let without: String = with.chars().map(|c| if c == 'a' || c == '7' { ' ' } else { c }).collect();
+                let (a, b) = (stroke_pieces(&with), stroke_pieces(&without));
+                if a.is_none() || a != b {
+                    println!("BOUNDED-WITNESS grid {:?}: strokes {:?}; with the labels blanked: {:?}", with, a, b);
+                    panic!("label characters never change the strokes");
+                }
+                n += 1;
+            }
+        }
+        println!("BOUNDED-CASES {}", n);
+    }
+
     /// WITNESS of a known finding (C11): whether a tag next to the right border styles its box depends on the
     /// scale, because `Text::bounds` adds an unscaled width to a scaled anchor.  Fails while the defect is present.
     #[test]
